@@ -690,14 +690,23 @@ def c18(tier, seed):
     from mosaik import util
 
     m2o_bad = []
+    # the sources are an Iterable: lists, tuples, dictionary views and ONE-SHOT iterators (generator, iter, map, filter, chain)
+    shapes = {"list": list, "tuple": tuple, "dict_keys": lambda l: dict.fromkeys(l).keys(), "generator": lambda l: (x for x in l), "iter": iter,
+              "map": lambda l: map(str, l), "filter": lambda l: filter(None, l), "chain": lambda l: itertools.chain(l[:1], l[1:])}
     for ns in range(0, 6):
         for asyncr in (False, True):
-            w = _RecWorld()
-            util.connect_many_to_one(w, [f"s{i}" for i in range(ns)], "d", "a", ("b", "c"), async_requests=asyncr)
-            ok = [c[0] for c in w.calls] == [f"s{i}" for i in range(ns)] and all(
-                c[1] == "d" and c[2] == ("a", ("b", "c")) and c[3] == {"async_requests": asyncr} for c in w.calls)
-            if not ok:
-                m2o_bad.append({"ns": ns, "async_requests": asyncr, "calls": [list(map(str, c[:2])) for c in w.calls]})
+            for shape, mk in shapes.items():
+                w = _RecWorld()
+                names = [f"s{i}" for i in range(ns)]
+                try:
+                    util.connect_many_to_one(w, mk(names), "d", "a", ("b", "c"), async_requests=asyncr)
+                    exc = ""
+                except Exception as e:  # noqa: BLE001
+                    exc = f"{type(e).__name__}: {e}"[:80]
+                ok = not exc and [c[0] for c in w.calls] == names and all(
+                    c[1] == "d" and c[2] == ("a", ("b", "c")) and c[3] == {"async_requests": asyncr} for c in w.calls)
+                if not ok:
+                    m2o_bad.append({"ns": ns, "async_requests": asyncr, "shape": shape, "exc": exc, "calls": [list(map(str, c[:2])) for c in w.calls]})
     viol, st, secs = _judge_rows("BulkConnectTable", "R18", rows)
     findings = [checklib.Finding("C18", clause, case={"id": [clause, n], "kind": "c18", "row": rows[n]}, detail=json.dumps(rows[n])[:600], extra={"row": rows[n]})
                 for clause, n in viol]
